@@ -19,6 +19,8 @@ def known_guard(case):
         return 'K1'
     if dsgcase.self_conflicting_option(case):
         return 'K7'
+    if dsgcase.dead_end_prefix(case):
+        return 'K8'
     return None
 
 
